@@ -377,7 +377,10 @@ impl Pager {
         Ok(id)
     }
 
+    #[cfg_attr(nervusdb_verif, track_caller)]
     pub fn allocate_page(&mut self) -> Result<PageId> {
+        #[cfg(nervusdb_verif)]
+        crate::verif_io::set_tag(std::panic::Location::caller().file());
         let max_pages = BITMAP_BITS;
         let candidate = self
             .bitmap
@@ -396,7 +399,10 @@ impl Pager {
         Ok(PageId::new(candidate))
     }
 
+    #[cfg_attr(nervusdb_verif, track_caller)]
     pub fn free_page(&mut self, page_id: PageId) -> Result<()> {
+        #[cfg(nervusdb_verif)]
+        crate::verif_io::set_tag(std::panic::Location::caller().file());
         self.validate_data_page_id(page_id)?;
         if !self.bitmap.is_allocated(page_id) {
             return Err(Error::PageNotAllocated(page_id.as_u64()));
@@ -418,7 +424,10 @@ impl Pager {
         Ok(page)
     }
 
+    #[cfg_attr(nervusdb_verif, track_caller)]
     pub fn write_page(&mut self, page_id: PageId, page: &[u8; PAGE_SIZE]) -> Result<()> {
+        #[cfg(nervusdb_verif)]
+        crate::verif_io::set_tag(std::panic::Location::caller().file());
         self.validate_data_page_id(page_id)?;
         if !self.bitmap.is_allocated(page_id) {
             return Err(Error::PageNotAllocated(page_id.as_u64()));
@@ -437,7 +446,10 @@ impl Pager {
         Ok(())
     }
 
+    #[cfg_attr(nervusdb_verif, track_caller)]
     pub(crate) fn ensure_allocated(&mut self, page_id: PageId) -> Result<()> {
+        #[cfg(nervusdb_verif)]
+        crate::verif_io::set_tag(std::panic::Location::caller().file());
         self.validate_data_page_id(page_id)?;
 
         if page_id.as_u64() >= self.meta.next_page_id {
